@@ -6,5 +6,11 @@ class Plugin(HistPlugin):
     id = 'C15'
     extra_import = 'HistProps HistPropCheck'
     check_fn = 'c15_check'
+    weights = {'insert_one': 3, 'bulk': 12, 'update': 2, 'create_index': 2, 'delete': 1}
+    rule = ('operation lists of length 1-4 over the six write models (with/without upsert, including failing '
+            'ones) executed through bulk_write, ordered and unordered, over states with unique indexes; the '
+            'effect and the counters are compared with issuing the same operations one at a time through '
+            'the single-operation steps. Non-trivial = a bulk with at least two operations of which one '
+            'fails or upserts; distinct by canonical JSON.')
     FINDING_BITS = 0
     UNDECIDED_BITS = 1
